@@ -25,9 +25,15 @@ def mk_case(cid, abstract, rng, plain=False, overlap=False):
         a_, b_ = rng.sample(R.TR_POOL, 2)
         doc = plssdoc.concretise(abstract, rng, tr_map=None if plain else {1: a_, 2: b_})
         text = plssdoc.render_doc(doc, rng, plain=plain)
+    # the documented options of pretty_desc(): the word for 'Section' and how continuation lines are justified
+    popt = {}
+    if not plain and rng.random() < 0.3:
+        popt["word_sec"] = rng.choice(["Section ", "Sec. ", "§"])
+    if not plain and rng.random() < 0.2:
+        popt["justify_linebreaks"] = rng.choice(["\t", "", "    "])
     return {"id": cid, "kind": "c01",
             "abs": {"layout": doc["layout"], "groups": doc["groups"]},
-            "args": {"text": text, "doc": doc}}
+            "args": {"text": text, "doc": doc, "pretty_opts": popt}}
 
 
 def check(ctx, cases):
